@@ -105,6 +105,24 @@ class Asn1Anchors:
         # the header routine with the private helpers it is split into; which of them produce the tag number and which
         # the length is read off the ASN1Header(...) construction (dataflow), never off a name
         self.header_family = reachable(model, self.header)
+        # the "not all of the value has arrived" signal: the package exception class the header routine raises, with the
+        # package classes above and below it (an `except` naming any of them intercepts some of these signals)
+        from collections import Counter
+        raised = Counter()
+        for f in self.header_family:
+            for r_ in walk_no_nested(f.node):
+                if isinstance(r_, ast.Raise) and r_.exc is not None:
+                    q = model.resolve_name(f.module, norm(r_.exc.func if isinstance(r_.exc, ast.Call) else r_.exc))
+                    if q in model.classes:
+                        raised[q] += 1
+        if not raised:
+            raise AnalysisError("the header routine raises no package exception class for exhausted input")
+        self.incomplete = raised.most_common(1)[0][0]
+        fam = {self.incomplete}
+        fam |= {b for b in model.classes[self.incomplete].mro if b in model.classes}
+        for b in list(fam):
+            fam |= set(model.subclasses(b))
+        self.incomplete_family: Set[str] = fam
         self.number_readers = self._producers("tag_number")
         self.length_readers = self._producers("length")
         self.octet_number_reader = self.number_readers[0] if len(self.number_readers) == 1 else None
@@ -334,3 +352,11 @@ def schema(model: Model) -> SchemaAnchors:
     if k not in _cache:
         _cache[k] = SchemaAnchors(model)
     return _cache[k]
+
+
+def is_incomplete(model: Model, q: Optional[str]) -> bool:
+    """q names the incomplete-input exception class or a package class above/below it"""
+    if q is None:
+        return False
+    fam = asn1(model).incomplete_family
+    return q in fam or ("." not in q and any(f.rsplit(".", 1)[-1] == q for f in fam))
